@@ -257,19 +257,19 @@ fn impl_block(p: &mut Parser) {
 
 fn impl_has_trait(p: &mut Parser) -> bool {
     let mut idx = 0;
-    let mut tok = p.nth(idx);
+    let mut tok = p.lookahead(idx);
     if tok == T![::] {
         idx += 1;
-        tok = p.nth(idx);
+        tok = p.lookahead(idx);
     }
     if tok != T![ident] {
         return false;
     }
     idx += 1;
     loop {
-        if p.nth(idx) == T![::] {
+        if p.lookahead(idx) == T![::] {
             idx += 1;
-            if p.nth(idx) != T![ident] {
+            if p.lookahead(idx) != T![ident] {
                 return false;
             }
             idx += 1;
@@ -277,7 +277,7 @@ fn impl_has_trait(p: &mut Parser) -> bool {
         }
         break;
     }
-    p.nth(idx) == T![for]
+    p.lookahead(idx) == T![for]
 }
 
 fn impl_block_with_marker(p: &mut Parser, m: MarkerOpened) {
